@@ -513,6 +513,7 @@ def main():
             raise TranslateError('MAX_SIZE cfg %r' % cfg)
     for rust, lean, toks in [('BLOCK_OPTIONS_MAX_LENGTH', 'blockOptionsMaxLength', block),
                              ('MAXIMUM_UNCOMMITTED_BUFFER_RESERVE_LENGTH', 'maxUncommittedReserve', block),
+                             ('MAXIMUM_TOKEN_LENGTH', 'maximumTokenLength', block),
                              ('DEFAULT_MAX_TOTAL_MESSAGE_SIZE', 'defaultMaxTotalMessageSize', block),
                              ('DEFAULT_UNACKNOWLEDGED_LIMIT', 'defaultUnackLimit', observe)]:
         cs = find_consts(toks, rust)
